@@ -2,6 +2,7 @@ package main
 
 import (
 	"fmt"
+	"net/textproto"
 	"go/constant"
 	"go/types"
 	"strings"
@@ -182,6 +183,9 @@ func (x *Exec) libStatic(st *State, f *Frame, callee *ssa.Function, c *ssa.CallC
 		}
 		return Sc{eq}, true
 	}
+	if v, ok := x.libHTTP(st, f, name, callee, c, args); ok {
+		return v, true
+	}
 	if effectFreePkgs[pkg] {
 		x.noteLib("effect-free (logging/metrics): package " + pkg)
 		return x.freshResults(st, callee.Signature, "log"), true
@@ -294,6 +298,22 @@ func (x *Exec) libInvoke(st *State, key string, c *ssa.CallCommon, args []Val) (
 		x.noteLib("clock.Clock.Now: the ghost clock (monotone non-decreasing, positive)")
 		st.assume(Cmp(">", st.clock, IntLit(0)))
 		return Sc{st.clock}, true
+	case "(net/http.ResponseWriter).Header":
+		rw := args[0].(IfaceV)
+		h := st.load("X|$hdr", []Sort{SInt}, SInt, []Term{rw.Pay})
+		st.assume(Cmp(">", h, IntLit(0)))
+		x.noteLib("ResponseWriter.Header(): the response's header map (ghost field $hdr, non-nil)")
+		return Sc{h}, true
+	case "(net/http.ResponseWriter).WriteHeader":
+		rw := args[0].(IfaceV)
+		x.setStatus(st, rw.Pay, args[1].(Sc).T)
+		return nil, true
+	case "(net/http.ResponseWriter).Write":
+		rw := args[0].(IfaceV)
+		x.setStatus(st, rw.Pay, IntLit(200))
+		x.ghostSet(st, "$bodyWritten", SBool, rw.Pay, TTrue)
+		n := reg.freshConst("written", SInt)
+		return TupleV{[]Val{Sc{n}, st.freshVal(types.Universe.Lookup("error").Type(), "werr")}}, true
 	case "(error).Error":
 		iv := args[0].(IfaceV)
 		return Sc{reg.uf("sf_errmsg", SStr, iv.Tag, iv.Pay)}, true
@@ -302,3 +322,96 @@ func (x *Exec) libInvoke(st *State, key string, c *ssa.CallCommon, args []Val) (
 }
 
 var _ = constant.MakeInt64
+
+// ---------------------------------------------------------------------------
+// net/http ghost model. For a ResponseWriter rw (keyed by its interface payload):
+//   $status       0 = not yet written; first write wins
+//   $location     Location header set by http.Redirect
+//   $hdr          the response header map
+//   $bodyWritten  bytes were written through rw.Write
+
+func (x *Exec) ghostGet(st *State, name string, srt Sort, ref Term) Term {
+	return st.load("X|"+name, []Sort{SInt}, srt, []Term{ref})
+}
+
+func (x *Exec) ghostSet(st *State, name string, srt Sort, ref Term, v Term) {
+	st.store("X|"+name, []Sort{SInt}, srt, []Term{ref}, v)
+}
+
+func (x *Exec) setStatus(st *State, rw Term, code Term) {
+	cur := x.ghostGet(st, "$status", SInt, rw)
+	x.ghostSet(st, "$status", SInt, rw, Ite(Eq(cur, IntLit(0)), code, cur))
+	x.noteLib("net/http response status: first WriteHeader/Write/Error/Redirect wins (ghost field $status)")
+}
+
+func canonHeader(t Term) Term {
+	if s, ok := unStrLit(t); ok {
+		return StrLit(textproto.CanonicalMIMEHeaderKey(s))
+	}
+	r := reg.uf("sf_canonhdr", SStr, t)
+	return r
+}
+
+var strSliceT = types.NewSlice(types.Typ[types.String])
+
+func (x *Exec) libHTTP(st *State, f *Frame, name string, callee *ssa.Function, c *ssa.CallCommon, args []Val) (Val, bool) {
+	sc := func(i int) Term { return args[i].(Sc).T }
+	strT := types.Typ[types.String]
+	switch name {
+	case "(net/http.Header).Set", "(net/url.Values).Set":
+		key := sc(1)
+		if name == "(net/http.Header).Set" {
+			key = canonHeader(key)
+			x.noteLib("http.Header.Set/Get/Del/Add: map operations on the canonical key (literal keys folded through textproto.CanonicalMIMEHeaderKey)")
+		}
+		r := st.newRef("hdrval")
+		st.storeAt(ElemAddr{r, IntLit(0), strT}, strT, Sc{sc(2)})
+		x.mapStore(st, sc(0), strT, strSliceT, key, SliceV{r, IntLit(0), IntLit(1), strT})
+		return nil, true
+	case "(net/http.Header).Add", "(net/url.Values).Add":
+		key := sc(1)
+		if name == "(net/http.Header).Add" {
+			key = canonHeader(key)
+		}
+		old := x.mapGet(st, sc(0), strT, strSliceT, key).(SliceV)
+		nv := x.append1(st, old, Sc{sc(2)})
+		x.mapStore(st, sc(0), strT, strSliceT, key, nv)
+		return nil, true
+	case "(net/http.Header).Del", "(net/url.Values).Del":
+		key := sc(1)
+		if name == "(net/http.Header).Del" {
+			key = canonHeader(key)
+		}
+		x.mapDelete(st, sc(0), strT, strSliceT, key)
+		return nil, true
+	case "(net/http.Header).Get", "(net/url.Values).Get":
+		key := sc(1)
+		if name == "(net/http.Header).Get" {
+			key = canonHeader(key)
+		}
+		// a nil map reads as empty
+		v := x.mapGet(st, sc(0), strT, strSliceT, key).(SliceV)
+		e0 := st.loadAt(ElemAddr{v.Arr, IntLit(0), strT}, strT).(Sc).T
+		return Sc{Ite(And(Not(Eq(sc(0), IntLit(0))), Cmp(">", v.Len, IntLit(0))), e0, StrLit(""))}, true
+	case "net/http.Error":
+		rw := args[0].(IfaceV)
+		x.setStatus(st, rw.Pay, sc(2))
+		x.ghostSet(st, "$bodyWritten", SBool, rw.Pay, TTrue)
+		return nil, true
+	case "net/http.Redirect":
+		rw := args[0].(IfaceV)
+		cur := x.ghostGet(st, "$status", SInt, rw.Pay)
+		x.ghostSet(st, "$location", SStr, rw.Pay, Ite(Eq(cur, IntLit(0)), sc(2), x.ghostGet(st, "$location", SStr, rw.Pay)))
+		x.ghostSet(st, "$redirects", SInt, rw.Pay, Add(x.ghostGet(st, "$redirects", SInt, rw.Pay), IntLit(1)))
+		x.setStatus(st, rw.Pay, sc(3))
+		x.noteLib("http.Redirect(rw, req, url, code): sets $location to url (up to net/http's documented normalisation of relative URLs) and the status, if nothing was written yet")
+		return nil, true
+	case "net/http.SetCookie":
+		// the cookie object passed is recorded through the call anchor; the Set-Cookie header itself is not modelled
+		x.noteLib("http.SetCookie: the cookie is what the anchored call was given; serialisation into Set-Cookie is not modelled")
+		return nil, true
+	case "net/http.StatusText":
+		return Sc{reg.uf("lib_statustext", SStr, sc(0))}, true
+	}
+	return nil, false
+}
